@@ -7,6 +7,7 @@ package c06
 //	c06.importResources  correspondence: loader.importResources vs Include.importResources
 //	c06.applyInclude     correspondence: loader.ApplyInclude on a temporary directory tree vs Include.applyInclude
 //	                     in the executable world of Model/IncludePipe.lean
+//	c06.resolveEnv       correspondence: the resolvers of loader/environment.go vs Model/IncludeResolve.lean
 //	c06.paste            direct oracle on the real loader (metamorphic pair of real loads, c06lib/paste.go)
 
 import (
@@ -20,6 +21,7 @@ import (
 	"time"
 
 	"github.com/compose-spec/compose-go/v2/loader"
+	"github.com/compose-spec/compose-go/v2/types"
 
 	"verifharness/c06lib"
 	"verifharness/core"
@@ -33,6 +35,13 @@ type fpathArgs struct {
 type includeConfigArgs struct {
 	Source any  `json:"source"`
 	Absent bool `json:"absent,omitempty"`
+}
+
+// resolveArgs: one resolver of loader/environment.go on a model of any shape.
+type resolveArgs struct {
+	Model any               `json:"model"`
+	Env   map[string]string `json:"env"`
+	Which string            `json:"which"` // services | secrets | configs | all (ResolveEnvironment) | included (services, then secrets)
 }
 
 type importArgs struct {
@@ -88,6 +97,42 @@ func init() {
 			return map[string]any{"ok": core.EncodeVal(tgt)}
 		},
 		DriverOp: "importResources",
+		Judge:    judgeModel,
+	})
+	core.Register("c06.resolveEnv", &core.CheckDef{
+		Real: func(raw json.RawMessage) any {
+			var a resolveArgs
+			if err := json.Unmarshal(raw, &a); err != nil {
+				return map[string]any{"bad": err.Error()}
+			}
+			dict, ok := core.DecodeVal(a.Model).(map[string]any)
+			if !ok {
+				return map[string]any{"bad": "model"}
+			}
+			env := types.Mapping{}
+			for k, v := range a.Env {
+				env[k] = v
+			}
+			before := fmt.Sprint(env)
+			switch a.Which {
+			case "services":
+				loader.VerifC06ResolveServicesEnvironment(dict, env)
+			case "secrets":
+				loader.VerifC06ResolveSecretsEnvironment(dict, env)
+			case "configs":
+				loader.VerifC06ResolveConfigsEnvironment(dict, env)
+			case "included": // the else branch of loadYamlModel's last statement (pinned: included_branch_calls_are_source)
+				loader.VerifC06ResolveServicesEnvironment(dict, env)
+				loader.VerifC06ResolveSecretsEnvironment(dict, env)
+			default:
+				loader.ResolveEnvironment(dict, env)
+			}
+			if fmt.Sprint(env) != before {
+				return map[string]any{"bad": "the resolver wrote the environment"}
+			}
+			return map[string]any{"ok": core.EncodeVal(dict)}
+		},
+		DriverOp: "resolveEnv",
 		Judge:    judgeModel,
 	})
 	core.Register("c06.applyInclude", &core.CheckDef{
@@ -657,6 +702,9 @@ func runC06(ctx *core.Ctx) {
 	case "paste":
 		streamPaste(ctx)
 		return
+	case "resolve":
+		streamResolveEnv(ctx)
+		return
 	case "symlinks":
 		streamPasteSymlinks(ctx)
 		return
@@ -680,6 +728,7 @@ func runC06(ctx *core.Ctx) {
 	streamPasteOptions(ctx)
 	streamPasteMissingProjDir(ctx)
 	streamPasteSymlinks(ctx)
+	streamResolveEnv(ctx)
 	streamEnvFromFile(ctx)
 	streamCloneOptions(ctx)
 }
@@ -1525,6 +1574,74 @@ func streamPasteMissingProjDir(ctx *core.Ctx) {
 		g.s.AddYAML("compose.yaml", 0, map[string]any{"include": []any{map[string]any{"path": "sub/inc.yaml", "project_directory": pd}}, "services": map[string]any{"a": svc("a")}})
 		ctx.Count("paste:missing-project_directory")
 		ctx.Add("c06.paste", pasteArgs(g, "compose.yaml", []c06lib.Entry{{Paths: []string{"sub/inc.yaml"}, ProjDir: pd}}, nil, "paste", "missing-project_directory"))
+	}
+}
+
+// streamResolveEnv: resolveServicesEnvironment / resolveSecretsEnvironment / resolveConfigsEnvironment / ResolveEnvironment
+// (hooks loader/verif_c06_resolve.go) vs Model/IncludeResolve.lean, on models of every shape — sections, entries,
+// `environment` values and list elements of every node kind, names the environment defines / defines as "" / does not
+// define, the empty name, an already present carrier — so that every branch of the model is reached (a validated load
+// only reaches the well-formed ones).
+func streamResolveEnv(ctx *core.Ctx) {
+	envs := []map[string]string{{}, {"V": "pv"}, {"V": "pv", "W": "", "X": "px"}, {"": "empty-name", "V=pv": "odd"}}
+	kinds := []any{nil, "s", 1, true, []any{}, map[string]any{}}
+	envVals := []any{nil, "", "V", "W", "NOPE", "V=pv", 3, true, []any{"V"}, map[string]any{"V": nil}}
+	lists := [][]any{{}, {"V"}, {"V", "NOPE", "K=k", "W"}, {nil, 1, "V", true, []any{"x"}, map[string]any{"a": "b"}, "X"}, {"", "V=pv"}}
+	add := func(which string, model map[string]any, env map[string]string, class string) {
+		ctx.Count("resolveEnv:" + which)
+		ctx.Count("resolveEnv-shape:" + class)
+		ctx.Add("c06.resolveEnv", resolveArgs{Model: core.EncodeVal(model), Env: env, Which: which})
+	}
+	for _, which := range []string{"services", "secrets", "configs", "all", "included"} {
+		for _, env := range envs {
+			for _, sect := range []string{"services", "secrets", "configs"} {
+				for _, k := range kinds { // the section itself of every kind
+					add(which, map[string]any{sect: k, "other": "kept"}, env, "section-kind")
+				}
+				for _, k := range kinds { // an entry of every kind
+					add(which, map[string]any{sect: map[string]any{"e": k, "f": map[string]any{"environment": "V"}}}, env, "entry-kind")
+				}
+				for _, ev := range envVals { // `environment` of every kind / name
+					add(which, map[string]any{sect: map[string]any{"e": map[string]any{"environment": ev, "file": "./f"}}}, env, "environment-value")
+					add(which, map[string]any{sect: map[string]any{"e": map[string]any{"environment": ev, "x-#value": "old", "content": "old"}}}, env, "carrier-present")
+				}
+				for _, l := range lists {
+					add(which, map[string]any{sect: map[string]any{"e": map[string]any{"environment": l, "image": "i"}}}, env, "environment-list")
+				}
+			}
+			add(which, map[string]any{}, env, "empty-model")
+		}
+	}
+	pick := func(xs []any) any { return xs[ctx.Rng.Intn(len(xs))] }
+	for i := 0; i < ctx.Pick(1500, 15000); i++ {
+		model := map[string]any{}
+		for _, sect := range []string{"services", "secrets", "configs", "volumes"} {
+			if ctx.Rng.Intn(4) == 0 {
+				continue
+			}
+			if ctx.Rng.Intn(8) == 0 {
+				model[sect] = pick(kinds)
+				continue
+			}
+			m := map[string]any{}
+			for j := 0; j < 1+ctx.Rng.Intn(3); j++ {
+				var e any
+				switch ctx.Rng.Intn(6) {
+				case 0:
+					e = pick(kinds)
+				case 1, 2:
+					e = map[string]any{"environment": lists[ctx.Rng.Intn(len(lists))], "image": "i"}
+				default:
+					e = map[string]any{"environment": pick(envVals)}
+					if ctx.Rng.Intn(4) == 0 {
+						e.(map[string]any)[[]string{"x-#value", "content", "file"}[ctx.Rng.Intn(3)]] = "old"
+					}
+				}
+				m[fmt.Sprintf("e%d", j)] = e
+			}
+			model[sect] = m
+		}
+		add([]string{"services", "secrets", "configs", "all", "included"}[ctx.Rng.Intn(5)], model, envs[ctx.Rng.Intn(len(envs))], "random")
 	}
 }
 
